@@ -160,11 +160,34 @@ static void byte_mutex_battery(const char *gname) {
 	}
 }
 
+// a mutex whose acquisition can fail by throwing (a deadline / would-block mutex; std::mutex::lock may throw too): after a failed
+// lock() the guard must not claim the mutex, and neither unlock() nor its destructor may release what was never acquired
+struct FailingMutex {
+	int excl = 0, shared = 0; bool fail_next = false; uint64_t unlocks = 0;
+	struct Refused {};
+	void lock() { if(fail_next) { fail_next = false; throw Refused{}; } excl++; }
+	void unlock() { unlocks++; excl--; }
+	void lock_shared() { if(fail_next) { fail_next = false; throw Refused{}; } shared++; }
+	void unlock_shared() { unlocks++; shared--; }
+};
+template<typename G, bool SH>
+static void failing_lock_battery(const char *gname) {
+	auto bad = [&](const char *what) { violation(std::string("C12:guard:") + gname + ":failed-lock", strf("%s over a mutex whose lock() failed: %s", gname, what)); };
+	FailingMutex m;
+	{ G g(frg::dont_lock, m); m.fail_next = true; try { g.lock(); bad("lock() returned although the mutex refused"); } catch(const FailingMutex::Refused &) {}
+	  if(g.is_locked() || g.protects(&m)) bad("the guard says it owns the mutex after its lock() failed"); }
+	if(m.unlocks || m.excl || m.shared) bad("a guard released a mutex it never acquired (destruction after a failed lock())");
+	{ G g(m); g.unlock(); m.fail_next = true; try { g.lock(); } catch(const FailingMutex::Refused &) {} if(g.is_locked()) bad("re-lock failed but the guard claims ownership"); g.lock(); if(!g.is_locked()) bad("second attempt"); }
+	if((SH ? m.shared : m.excl) != 0 || m.unlocks != 2) bad("unbalanced calls after a failed re-lock that was retried");
+	count("failing_lock_batteries");
+}
+
 // frg::guard() helpers and the QS lock_guard
 static void guard_helpers() {
 	if(!want_mode("guards:helpers")) return;
 	begin_case("guards:helpers", 0);
 	guarded("C12", [] { byte_mutex_battery<frg::unique_lock<ByteMutex>, false>("unique_lock"); byte_mutex_battery<frg::shared_lock<ByteMutex>, true>("shared_lock"); });
+	guarded("C12", [] { failing_lock_battery<frg::unique_lock<FailingMutex>, false>("unique_lock"); failing_lock_battery<frg::shared_lock<FailingMutex>, true>("shared_lock"); });
 	guarded("C12", [] {
 		LogMutex m;
 		{ auto g = frg::guard(&m); if(!g.is_locked() || m.excl != 1) violation("C12:guard:guard():not-locked", "frg::guard(&m) does not hold the mutex"); }
